@@ -400,7 +400,10 @@ class Expect:
         self.kind, self.vclass, self.doc, self.check, self.shown = kind, vclass, doc, check, shown
 
 
-def _num_check(x):
+def _num_check(x, exact=False):
+    """numeric equality; exact for Integer results (an Integer has no rounding), 1e-9 relative for Number"""
+    if exact:
+        return lambda v: _isnum(v) and v == x and float(v) == int(v) and int(v) == int(x)
     return lambda v: _isnum(v) and (v == x or abs(v - x) <= 1e-9 * max(abs(v), abs(x)))
 
 
@@ -424,6 +427,8 @@ def _numeric_string(x):
 
 
 def _int_class(n):
+    if abs(n) > 2 ** 53:
+        return "beyond-2^53"
     return "zero" if n == 0 else ("negative" if n < 0 else ("beyond-int32" if n > 2 ** 31 - 1 else "positive"))
 
 
@@ -461,9 +466,9 @@ def expect(docs, src, tgt, v, fmt):
         vc = _int_class(v) if src == "Integer" else _num_class(v)
         if tgt == "Boolean":
             return Expect("value", vc, R["num2bool_text"], _eq(v != 0), v != 0)
-        if tgt == "Number" or (tgt == "Integer" and float(v) == int(v)):
+        if tgt == "Number" or (tgt == "Integer" and (src == "Integer" or float(v) == int(v))):
             return Expect("value", vc, "same numeric value (Integer is a subtype of Number, both directions implicit)",
-                          _num_check(v), v)
+                          _num_check(v, exact=(tgt == "Integer" and src == "Integer")), v)
         if tgt == "Integer":
             return any_(vc, "Number with a fractional part to Integer (truncate, round or reject)")
         if tgt == "String":
@@ -502,9 +507,9 @@ def expect(docs, src, tgt, v, fmt):
         p = parse_period(v)
         vc = _PNAME[p[0]] + "-period"
         rend = render_period(p, fmt)
+        if rend is None and tgt in ("Time_Period", "String"):
+            return any_("period-not-supported-by-output-format", "the output-format table marks this period 'Not supported' under " + fmt)
         if tgt == "Time_Period":
-            if rend is None:
-                return any_(vc, "output format %s does not support this period ('Not supported')" % fmt)
             return Expect("value", vc, "same period, rendered per the output-format table (%s)" % fmt, _in(rend), sorted(rend))
         if tgt == "String":
             return Expect("value", vc, "document silent on which spelling: any documented spelling of the same period",
@@ -530,7 +535,9 @@ def expect(docs, src, tgt, v, fmt):
             return Expect("value", "string", "same string", _eq(v), v)
         if tgt in ("Integer", "Number"):
             if shape == "integer-string":
-                return Expect("value", shape, "a valid integer string converts to that number", _num_check(int(v)), int(v))
+                vc = "large-integer-string" if abs(int(v)) > 2 ** 53 else shape
+                return Expect("value", vc, "a valid integer string converts to that number",
+                              _num_check(int(v), exact=(tgt == "Integer")), int(v))
             if shape == "non-numeric-string":
                 return Expect("error", shape, "not a number: cannot be converted")
             if tgt == "Number":
@@ -553,11 +560,12 @@ def expect(docs, src, tgt, v, fmt):
             return any_("non-date-string", "strings starting with a year that are not a YYYY-MM-DD date")
         if tgt == "Time_Period":
             p = parse_period(v)
+            if p is not None and render_period(p, fmt) is None:
+                return any_("period-not-supported-by-output-format",
+                            "the output-format table marks this period 'Not supported' under " + fmt)
             if p is not None and period_valid(p):
                 rend = render_period(p, fmt)
                 vc = _PNAME[p[0]] + "-period-string"
-                if rend is None:
-                    return any_(vc, "output format %s does not support this period ('Not supported')" % fmt)
                 return Expect("value", vc, "a documented Time_Period spelling converts to that period, rendered per "
                               "the output-format table (%s)" % fmt, _in(rend), sorted(rend))
             if not lead_year:
@@ -572,6 +580,9 @@ def expect(docs, src, tgt, v, fmt):
                 return any_("reversed-interval-string", "interval whose end precedes its start")
             if not lead_year:
                 return Expect("error", "non-interval-string", "not a time interval: cannot be converted")
+            if re.fullmatch(r"\d{4}(-\d{2})?", v):
+                return any_("year-or-month-string", "YYYY / YYYY-MM strings (accepted as Time *input* and expanded to the full "
+                            "interval; nothing is said for cast)")
             return any_("non-interval-string", "year-led strings that are not YYYY-MM-DD/YYYY-MM-DD")
         if tgt == "Duration":
             if v in docs["durations"]:
@@ -599,7 +610,7 @@ POOLS = {
     "Duration": ["A", "S", "Q", "M", "W", "D", None],
     "String": [
         # numbers
-        "3", "0", "-4", "3.5", "-3.7", "3.0", "1e5", " 3 ",
+        "3", "0", "-4", "3.5", "-3.7", "3.0", "1e5", " 3 ", "9007199254740993",
         # booleans, words
         "true", "false", "abc", "X",
         # dates
